@@ -69,6 +69,18 @@ PROPS["C13"] = {
     "rule": "cases = 1-8 events from the real encoders (polling, stream close, fallback data with assorted payload sizes/status words, hot restart, ack), each mutated with probability 5/14 (truncation, length-field perturbation incl. <8, <16, huge, wrong type, version 0, bad magic, bit flip), optional garbage tail, cut into reads (whole / byte-by-byte / 1-5 bytes / random), on client or server sessions with/without manager/listener; plus handshake metadata bodies (valid, truncated, perturbed lengths); non-trivial = protocol error, partial event kept across reads, streams created, chunked, metadata error; distinct by hash of op lines",
     "assumptions": ["the posted hot-restart lambdas are not run here (C16)", "queue empty during handlePolling in this harness"],
 }
+PROPS["C06"] = {
+    "claim": "PARTIAL proof. Statement-level Lean model of buffer_slice.go, buffer.go (all BufferWriter/BufferReader methods, alloc with single / multi-slice / heap fall-back, done, recycle, pinned list), the sequential-atomic allocator, Stream.Flush on both transports, pendingData.moveTo with its empty-slice cases, ReleaseReadAndReuse. Proved (reader half): c06_reader_refines_bytequeue - any enabled sequence of ReadBytes / Peek / Discard over any chain of slices (empty slices, mixed shm/heap, any boundaries) returns exactly take/drop of the buffered byte sequence, Peek consumes nothing, Len tracks the consumed bytes. Writer half, transport and ReadByte/ReadString/Read are covered by lock-step correspondence of the whole model against two real in-package sessions plus a byte-pipe monitor, not yet by theorems. A genuine defect found by this check (ReleaseReadAndReuse swapping a non-empty send buffer into the read side) was repaired by a fix: commit; Discard(0) nil dereference likewise.",
+    "note": "Trusted: Lean kernel; extractor; harness. Allocator modelled at sequential-atomic level (C02). Delivery to the peer is immediate in this harness (channel orderings are C07's). Blocking in readMore is replaced by an expired read deadline (time-out outcome).",
+    "technique": "Lean 4 proof (refinement of the reader operations to a byte queue by induction over slices and operations) + skeleton tie + lock-step correspondence + byte-pipe monitor",
+    "design_ref": "DESIGN.md §5 C06",
+    "lean_modules": ["ShmVerif.Tie.C06", "ShmVerif.Props.C06"],
+    "harness": True, "level": "proof", "trusted_base": COMMON_TB,
+    "rule": "cases = (one of 6 slice-size configurations with tiny capacities; 4-44 operations drawn from WriteBytes / Reserve+fill / WriteByte (sizes relative to the slice capacities: 0, 1, c-1, c, c+1, 2c, 2c+1, sum of classes +-1, larger than the largest class, random), Flush with immediate delivery, ReadBytes / Peek / Discard / ReadString / Read / ReadByte (sizes mostly within the available bytes, sometimes beyond -> timeout), ReleasePreviousRead, ReleaseReadAndReuse, Len, environment take/give of buffers (exhaustion), both directions); non-trivial = multi-slice write, heap fall-back slice, fall-back transport, pinned list used, read time-out, environment take; distinct by hash of op lines",
+    "assumptions": ["allocator at sequential-atomic level (C02 seq refinement)", "delivery to the peer is immediate in this harness (channel orderings are C07's)"],
+}
+PROPS["C08"] = dict(PROPS["C06"], lean_modules=["ShmVerif.Tie.C06", "ShmVerif.Props.C08"], design_ref="DESIGN.md §5 C08",
+    claim="PARTIAL proof over the same model as C06. Proved: c08_reader_ops_preserve_payload (no sequence of reader operations, with the recycling it triggers, changes a payload byte of any slot), c08_release_preserves_payload, c08_fast_path_pins + c08_pinned_not_recycled (a slice that handed out a zero-copy view is parked, not recycled, when the reader moves past it), c08_release_returns (ReleasePreviousRead empties the parked list). Not yet proved: that writes by other holders cannot reach a parked slot (needs C09's global ownership partition); covered on the real code by a borrow monitor that re-compares every outstanding ReadBytes/Peek result after every later operation, including unrelated allocate-and-scribble.")
 PROPS["C02"] = dict(PROPS["C01"], lean_modules=["ShmVerif.Tie.C01", "ShmVerif.Props.C02"],
     claim="PARTIAL proof. Proved in Lean: c02_conservation_seq and c02_quiescent_full_seq (every sequential-atomic history: free count = chain length, free count + owned = capacity; when nothing is owned size = cap and the walk from head visits every slot exactly once and ends at tail), c02_failed_alloc_consumes_nothing (a failing pop restores every shared word), c02_aba_witness (kernel-checked: after the ABA schedule and full recycling size = cap = 4 but the walk visits 2 slots - known finding F1, replayed on the real code every run). Conservation for ABA-free concurrent interleavings is not proved; covered by scheduler correspondence + quiescence monitors (size, chain walk, count never exceeds capacity).",
     design_ref="DESIGN.md §5 C02")
